@@ -521,8 +521,78 @@ pub fn gen_shadow_project(rng: &mut Rng, ptr: usize) -> Project {
     };
     // Variant without any generated name: two plain definitions of one short name, both in
     // scope through module imports; which one wins is a matter of scope order only.
+    if rng.chance(1, 6) {
+        // A type imported by name that is called like a built-in: the import wins.
+        let builtin = *rng.pick(&["u32", "i8", "u64", "bool"]);
+        p.items.push(Item {
+            module: 1,
+            name: builtin.into(),
+            vis: true,
+            doc: None,
+            kind: if rng.chance(1, 2) {
+                ItemKind::Extern { size: 16, align: 8 }
+            } else {
+                ItemKind::Type {
+                    fields: vec![field("wide", Ty::Prim("u64").arr(2))],
+                    vftable: None,
+                    size: None,
+                    align: None,
+                    packed: false,
+                    flags: Flags::default(),
+                    singleton: None,
+                    impl_funcs: vec![],
+                    semicolon_form: false,
+                }
+            },
+            csize: 16,
+            calign: 8,
+            vslots: None,
+        });
+        p.modules[1].order.push(Decl::Item(0));
+        let other_path = p.modules[1].item_path();
+        p.modules[2].extra_uses.push(format!("use {other_path}::{builtin};"));
+        let idx = p.items.len();
+        if rng.chance(1, 2) {
+            p.items.push(Item {
+                module: 2,
+                name: format!("E{idx}"),
+                vis: true,
+                doc: None,
+                kind: ItemKind::Enum {
+                    base: Ty::Name(builtin.into()),
+                    variants: vec![("A".into(), None, false), ("B".into(), None, false)],
+                    flags: Flags::default(),
+                    singleton: None,
+                },
+                csize: 0,
+                calign: 1,
+                vslots: None,
+            });
+            p.modules[2].order.push(Decl::Item(idx));
+        } else {
+            push_simple_type(rng, &mut p, 2, idx, vec![field("v", Ty::Name(builtin.into()))]);
+        }
+        return p;
+    }
     if rng.chance(1, 3) {
+        let extern_competitors = rng.chance(1, 2);
         for (module, bytes) in [(0usize, 4usize), (1, 12)] {
+            if extern_competitors {
+                p.items.push(Item {
+                    module,
+                    name: "ThingVftable".into(),
+                    vis: true,
+                    doc: None,
+                    kind: ItemKind::Extern {
+                        size: bytes * ptr,
+                        align: ptr,
+                    },
+                    csize: bytes * ptr,
+                    calign: ptr,
+                    vslots: None,
+                });
+                continue;
+            }
             p.items.push(Item {
                 module,
                 name: "ThingVftable".into(),
@@ -559,12 +629,32 @@ pub fn gen_shadow_project(rng: &mut Rng, ptr: usize) -> Project {
         };
         let idx = p.items.len();
         let vty = Ty::Name("ThingVftable".into());
-        let f = if rng.chance(1, 2) {
-            field("table", vty)
+        if rng.chance(1, 3) {
+            // An enum over the contested name.
+            p.items.push(Item {
+                module: m,
+                name: format!("E{idx}"),
+                vis: true,
+                doc: None,
+                kind: ItemKind::Enum {
+                    base: vty,
+                    variants: vec![("A".into(), None, false)],
+                    flags: Flags::default(),
+                    singleton: None,
+                },
+                csize: 0,
+                calign: 1,
+                vslots: None,
+            });
+            p.modules[m].order.push(Decl::Item(idx));
         } else {
-            field("table", vty.cptr())
-        };
-        push_simple_type(rng, &mut p, m, idx, vec![f]);
+            let f = if rng.chance(1, 2) {
+                field("table", vty)
+            } else {
+                field("table", vty.cptr())
+            };
+            push_simple_type(rng, &mut p, m, idx, vec![f]);
+        }
         for i in 0..2 {
             let m = p.items[i].module;
             let pos = rng.below(p.modules[m].order.len() + 1);
